@@ -18,7 +18,7 @@
 (*       truncated to w, padded with 0 (unsigned) or the last bit (signed) *)
 (*  kind "popcount": bytes -> number of one bits                           *)
 (***************************************************************************)
-EXTENDS Integers, Sequences, FiniteSets, TLC, Json, IOUtils
+EXTENDS Integers, Sequences, FiniteSets, TLC, Json, IOUtils, SequencesExt
 Recs == JsonDeserialize(IOEnv.TRACE_FILE)
 VARIABLE tid
 Init == tid \in 1..Len(Recs)
@@ -67,7 +67,7 @@ PackOK == (~K("pack") \/ R.raised \/
              (/\ Len(R.got) = Len(R.rows)
               /\ \A i \in 1..Len(R.rows) : LET row == R.rows[i]  n == Len(row) IN
                     R.got[i] = [k \in 1..R.w |-> IF k <= n THEN row[k] ELSE IF R.signed /\ n > 0 THEN row[n] ELSE 0])) \/ Fail("PackPadsAndTruncates")
-RECURSIVE Ones(_, _)
-Ones(q, i) == IF i > Len(q) THEN 0 ELSE (LET v == q[i] IN Bit(v,0) + Bit(v,1) + Bit(v,2) + Bit(v,3) + Bit(v,4) + Bit(v,5) + Bit(v,6) + Bit(v,7)) + Ones(q, i + 1)
+Ones8(v) == Bit(v,0) + Bit(v,1) + Bit(v,2) + Bit(v,3) + Bit(v,4) + Bit(v,5) + Bit(v,6) + Bit(v,7)
+Ones(q, i) == FoldLeft(LAMBDA acc, v : acc + Ones8(v), 0, SubSeq(q, i, Len(q)))
 PopcountOK == (~K("popcount") \/ R.raised \/ R.got = Ones(R.vals, 1)) \/ Fail("PopcountCountsOnes")
 =============================================================================
